@@ -234,12 +234,12 @@ func joinFieldsText(fields []Field) string {
 // default does not implement StructuredLogger (a custom printf-only logger),
 // the fields are folded into a single text message so no context is lost.
 func InfoFields(msg string, fields ...Field) {
-	emitFields(defaultInstance.Info, msg, fields)
+	emitFields(GetDefault().Info, msg, fields)
 }
 
-func WarnFields(msg string, fields ...Field)  { emitFields(defaultInstance.Warn, msg, fields) }
-func ErrorFields(msg string, fields ...Field) { emitFields(defaultInstance.Error, msg, fields) }
-func DebugFields(msg string, fields ...Field) { emitFields(defaultInstance.Debug, msg, fields) }
+func WarnFields(msg string, fields ...Field)  { emitFields(GetDefault().Warn, msg, fields) }
+func ErrorFields(msg string, fields ...Field) { emitFields(GetDefault().Error, msg, fields) }
+func DebugFields(msg string, fields ...Field) { emitFields(GetDefault().Debug, msg, fields) }
 
 type printfFunc func(format string, args ...any)
 
